@@ -293,7 +293,8 @@ class M(pa.DataFrameModel):
 class PM(pp.DataFrameModel):
     a: int = pa.Field(ge=0)
 bad_d = pd.DataFrame({"a": [1, -2]}); bad_s = pd.DataFrame({"a": [1.5, 2.5]})
-out["probes"] = {
+def all_probes():
+  return {
   "pd_bad_data": verdict(pds.validate, bad_d),
   "pd_bad_schema": verdict(pds.validate, bad_s),
   "pd_both_bad_lazy": verdict(lambda x: pds.validate(x, lazy=True), pd.DataFrame({"a": [1.5, -2.5]})),
@@ -305,7 +306,14 @@ out["probes"] = {
   "pl_lf_bad_data": verdict(lambda x: (lambda r: r if r is x else (r.collect(), r)[1])(pls.validate(x)), pl.DataFrame({"a": [1, -2]}).lazy()),
   "pl_lf_bad_schema": verdict(lambda x: (lambda r: r if r is x else (r.collect(), r)[1])(pls.validate(x)), pl.DataFrame({"a": [1.5, 2.5]}).lazy()),
   "pl_model_bad_data": verdict(PM.validate, pl.DataFrame({"a": [1, -2]})),
-}
+  }
+out["probes"] = all_probes()
+# the environment puts the process in a non-initial configuration: a config_context entered on top of it must still win
+out["ctx_probes"] = {}
+for y in ("SCHEMA_ONLY", "DATA_ONLY", "SCHEMA_AND_DATA"):
+    with cfg.config_context(validation_depth=cfg.ValidationDepth[y]):
+        out["ctx_probes"][y] = all_probes()
+    out["ctx_probes"][y]["@restored"] = t(cfg.get_config_context(validation_depth_default=None)) == out["context"]
 print("@@" + json.dumps(out))
 """
 
@@ -362,6 +370,22 @@ def _run_env(setting):
         if not _verdict_ok(want, got):
             viol.append({"clause": "env.probe_verdict", "key": f"{name}:{want}->{got}",
                          "detail": f"setting={setting} probe={name} expected {want} observed {got}"})
+    for y, probes in (out.get("ctx_probes") or {}).items():
+        if probes.pop("@restored", True) is not True:
+            viol.append({"clause": "env.context_restored", "key": f"after_context:{y}", "detail": f"setting={setting}"})
+        for name, got in probes.items():
+            bad, kind = _PROBE_KIND[name]
+            if not enabled:
+                want = "same_object"
+            elif y == "SCHEMA_AND_DATA":
+                want = "reject"
+            elif y == "SCHEMA_ONLY":
+                want = "reject" if bad in ("schema", "both") else "accept"
+            else:
+                want = "reject" if bad in ("data", "both") else "accept"
+            if not _verdict_ok(want, got):
+                viol.append({"clause": "env.context_overrides_environment", "key": f"{name}:ctx={y}:{want}->{got}",
+                             "detail": f"setting={setting} config_context(validation_depth={y}) probe={name} expected {want} observed {got}"})
     return viol, "/".join(str(x) for x in out["global"])
 
 
